@@ -393,9 +393,10 @@ def mod11Loop : Nat → Nat → Nat → Nat → Nat
   | k + 1, i, num, sum =>
     let num := num / 10
     mod11Loop k (i + 1) num (sum + (num % 10) * (i + 2))
-def mod11 (num : Nat) : Nat :=
+/-- `mod11`: the check digit of the 11-test, `-1` for a remainder of 10 (no check digit exists) -/
+def mod11 (num : Nat) : Int :=
   let sum := mod11Loop 8 0 num 0 % 11
-  if sum > 9 then 0 else sum
+  if sum > 9 then -1 else (sum : Int)
 def mod97Val (c : Char) : Nat := if isDig c then c.toNat - 48 else c.toNat - 55
 def mod97Loop : List Nat → Nat → Nat
   | [], r => r
@@ -411,7 +412,7 @@ def validateDigits (code check : Str) : Bool :=
     match atoi? check with
     | none => false
     | some _ =>
-      let ck := num % 10
+      let ck : Int := ((num % 10 : Nat) : Int)
       let sum := mod11 num
       !(sum != ck && !checkMod97 (['N', 'L'] ++ code ++ ['B'] ++ check))
 def regime (s : Str) : Bool :=
